@@ -103,7 +103,7 @@ fn sample(pattern: u32, x: usize, y: usize, c: usize, w: usize, h: usize, maxv: 
     v.clamp(0, maxv) as i32
 }
 
-pub const N_TREES: u32 = 14 + 22;
+pub const N_TREES: u32 = 14 + 24;
 
 fn tree_of(idx: u32, leaf_variant: u32, w: usize) -> Node {
     let leaf = |p: u32| -> Node {
@@ -148,6 +148,16 @@ fn tree_of(idx: u32, leaf_variant: u32, w: usize) -> Node {
             let mut n = leaf(5);
             for (k, t) in [3, 9, 20, 50, 90, 140, 200, 600, 1021, 1023, 2000].iter().enumerate() {
                 n = Node::split(9, *t, leaf([1, 2, 3, 4, 5, 7, 8, 9, 10, 11, 12][k]), n);
+            }
+            n
+        }
+        22 | 23 => {
+            // chains on a previous-channel property with one predictor in every leaf (only the context differs):
+            // candidates for the single-table fast paths, which must still see the previous channels
+            let (prop, ts, p): (u32, [i32; 5], u32) = if idx - 14 == 22 { (16, [2, 9, 40, 120, 220], 5) } else { (17, [-3, 15, 70, 140, 230], 1) };
+            let mut n = leaf(p);
+            for t in ts {
+                n = Node::split(prop, t, leaf(p), n);
             }
             n
         }
@@ -644,6 +654,26 @@ pub fn main(args: &crate::Args) {
         }
     }
     tapes.extend(prod);
+    // multi-group images (several pass groups / LF groups) x every transform stack, TOC permutation, pass count,
+    // group size and tree locality: cheap enough for every tier, and the only place where channels are cut into groups
+    {
+        let big: Vec<usize> = SIZES.iter().enumerate().filter(|(_, s)| s.0 * s.1 > 400).map(|(i, _)| i).collect();
+        for &si in &big {
+            for tr in 0..N_TRANSFORMS {
+                for (perm, passes, gshift, global) in [(0u32, 0u32, 0u32, 0u32), (2, 0, 0, 1), (1, 1, 1, 0), (2, 2, 0, 0), (0, 0, 2, 1)] {
+                    let mut t = vec![0u32; 17];
+                    t[0] = si as u32;
+                    t[1] = if tr >= 1 && tr <= 12 { 1 } else { 0 };
+                    t[8] = tr;
+                    t[11] = global;
+                    t[12] = gshift;
+                    t[13] = passes;
+                    t[14] = perm;
+                    tapes.push(t);
+                }
+            }
+        }
+    }
     rep.rule = format!(
         "encoder configuration = 17 dimensions (size {}, layout {}, bit depth {}, float kind 3, pattern {}, tree {}, leaf offset/multiplier 7, WP params 4, transform {}, coder 4, LZ77 3, global/local tree, group size 4, passes 3, TOC permutation 3, buffer width 2, ec dim_shift 3); ALL configurations within {} deviations of the default ({}), plus the full product predictor x tiny sizes x leaf variant x coder x width x depth; a case is non-trivial when it is encodable and decodes to a non-constant image; distinct by configuration tape",
         SIZES.len(), N_LAYOUTS, DEPTHS.len(), N_PATTERNS, N_TREES, N_TRANSFORMS, bound,
